@@ -171,7 +171,7 @@ def build(repo):
                ensures=['self.xl == xl and self.xu == xu', 'absolute bounds are copies of the arguments (NaN-free if they are):: implies(notnan(xl), notnan(self.xl)) and implies(notnan(xu), notnan(self.xu))',
                         'self.projections == projections', 'same(self.scaling_changes, scaling_changes)', 'isnone(self.xsave)'])
     for q, arg in (('Model.as_absolute_coordinates', 'x'), ('Model.xpt', None)):
-        D.contract(q, tags=['C01', 'C09'], params={'x': 'fp', 'k': 'int', 'abs_coordinates': 'bool'},
+        D.contract(q, tags=['C01', 'C09', 'C14'], params={'x': 'fp', 'k': 'int', 'abs_coordinates': 'bool'},
                    requires=['INV_boxm(self)', 'A-nan:: finite(self.xbase) and notnan(self.sl) and notnan(self.su) and notnan(self.points)'] +
                             (['A-nan:: notnan(x)'] if arg else []),
                    ensures=['produced absolute point lies in the box, exactly, for every base point:: ' +
